@@ -68,7 +68,8 @@ def modelLine (line : String) : String :=
          if (entryTerm c.eng (replica c.log n) snap.labelIdx).isSome then "entry-term-hit" else "entry-term-none"] ++
         (if (c.log.drop snap.labelIdx).any (fun e => match e.cmd with | .cas .. => true | _ => false)
           then ["cas-in-replayed-suffix"] else []) ++
-        (if pb > 0 then ["follower-had-state"] else [])
+        (if pb > 0 then ["follower-had-state"] else []) ++
+        (if snap.labelIdx ≤ pb then ["snapshot-not-ahead"] else ["snapshot-ahead"])
       s!"label={showId snap.labelIdx snap.labelTerm} inst={showMap "=" inst.kv} ila={showId inst.la inst.laTerm} b={showMap "=" b.kv} bla={showId b.la b.laTerm} a={showMap "=" a.kv} ala={showId a.la a.laTerm}\t{",".intercalate tags}"
 
 def parseMap (s : String) : Option AMap :=
